@@ -8,12 +8,17 @@
 //
 // One output line per DAG:
 //
-//	(c08 KIND (dag (f ID (DEP...))...) (res MODE TREE TREE TREE)...)
+//	(c08 KIND (dag (f ID (DEP...) SRC)...) (res MODE TREE TREE TREE)...)
+//
+// SRC: - for a plain fetch, (DS ENV) for an entity fetch that createMultiFetch may merge with
+// others of the same wave and datasource DS (ENV: request envelope; a differing one aborts the merge).
 //
 // KIND: dag (acyclic, unique ids) | dup (malformed: duplicate ids, at most 12 fetches).
-// MODE: w = legacy waves; s = scheduler; m = MultiFetch stage + scheduler (waves, flatten,
-// schedule); t = scheduler on a subscription plan (root carries a Trigger).
-// TREE: (S id (deps)) | (Q tree...) | (P tree...) | (panic "msg"); the same DAG is processed
+// MODE: w = legacy waves; s = scheduler; m = MultiFetch stage + scheduler (waves, merge, flatten,
+// schedule); t = scheduler on a subscription plan (root carries a Trigger); M = MultiFetch stage on
+// the legacy waves.
+// TREE: (S id (deps) (merged ids)) | (Q tree...) | (P tree...) | (panic "msg"); (merged ids) is
+// MultiEntityFetch.MergedFetchIDs, empty for every other fetch; the same DAG is processed
 // three times per mode from fresh copies (the scheduler iterates Go maps).
 package main
 
@@ -26,6 +31,8 @@ import (
 
 	"gvh/common"
 
+	"github.com/wundergraph/graphql-go-tools/v2/pkg/ast"
+	"github.com/wundergraph/graphql-go-tools/v2/pkg/astparser"
 	"github.com/wundergraph/graphql-go-tools/v2/pkg/engine/plan"
 	"github.com/wundergraph/graphql-go-tools/v2/pkg/engine/postprocess"
 	"github.com/wundergraph/graphql-go-tools/v2/pkg/engine/resolve"
@@ -34,9 +41,46 @@ import (
 type fetch struct {
 	id   int
 	deps []int
+	// merge candidate of createMultiFetch: an entity fetch against datasource ds whose request
+	// envelope is env (cand == false: a plain root fetch)
+	cand    bool
+	ds, env int
 }
 
 // ---------------------------------------------------------------- implementation side
+
+// entity builds a fetch that createMultiFetch.isCandidate accepts (cf. create_multi_fetch_test.go):
+// entity / batch entity SingleFetch, SubgraphOperation with an _entities document, exactly one
+// representations fragment pointing at a ResolvableObjectVariable, FetchInfo with the datasource.
+func entity(f fetch, deps []int) *resolve.FetchItem {
+	src := fmt.Sprintf(`query($representations: [_Any!]!){_entities(representations: $representations){... on User {__typename f%d}}}`, f.id)
+	doc, report := astparser.ParseGraphqlDocumentString(src)
+	if report.HasErrors() {
+		panic("harness: " + report.Error())
+	}
+	sf := &resolve.SingleFetch{
+		FetchDependencies: resolve.FetchDependencies{FetchID: f.id, DependsOnFetchIDs: deps},
+		Info: &resolve.FetchInfo{DataSourceID: fmt.Sprintf("ds%d", f.ds), DataSourceName: fmt.Sprintf("ds%d", f.ds),
+			OperationType: ast.OperationTypeQuery},
+		FetchConfiguration: resolve.FetchConfiguration{
+			RequiresEntityBatchFetch: f.id%2 == 0,
+			RequiresEntityFetch:      f.id%2 == 1,
+			Variables: resolve.NewVariables(resolve.NewResolvableObjectVariable(&resolve.Object{
+				Nullable: true,
+				Fields: []*resolve.Field{
+					{Name: []byte("__typename"), Value: &resolve.String{Path: []string{"__typename"}}},
+					{Name: []byte("id"), Value: &resolve.String{Path: []string{"id"}}},
+				},
+			})),
+			SubgraphOperation: &resolve.SubgraphOperation{
+				Document:  &doc,
+				Variables: []resolve.SubgraphVariable{{Name: "representations", Value: []byte("[$$0$$]")}},
+				Envelope:  resolve.SubgraphRequestEnvelope{Method: "POST", URL: fmt.Sprintf("http://ds%d/e%d", f.ds, f.env)},
+			},
+		},
+	}
+	return resolve.FetchItemWithPath(sf, "user", resolve.ObjectPath("user"))
+}
 
 func items(dag []fetch) []*resolve.FetchItem {
 	out := make([]*resolve.FetchItem, len(dag))
@@ -45,9 +89,15 @@ func items(dag []fetch) []*resolve.FetchItem {
 		if f.deps != nil {
 			deps = append([]int{}, f.deps...)
 		}
+		if f.cand {
+			out[i] = entity(f, deps)
+			continue
+		}
 		out[i] = &resolve.FetchItem{
 			Fetch: &resolve.SingleFetch{
 				FetchDependencies: resolve.FetchDependencies{FetchID: f.id, DependsOnFetchIDs: deps},
+				Info: &resolve.FetchInfo{DataSourceID: fmt.Sprintf("root%d", f.id), DataSourceName: fmt.Sprintf("root%d", f.id),
+					OperationType: ast.OperationTypeQuery},
 			},
 		}
 	}
@@ -70,6 +120,8 @@ func processor(mode string) *postprocess.Processor {
 	case "m":
 		// the MultiFetch stage is forced off by DisableResolveInputTemplates, so that stage stays on
 		opts = append(opts, postprocess.EnableScheduleFetches(), postprocess.EnableMultiFetch())
+	case "M":
+		opts = append(opts, postprocess.EnableMultiFetch())
 	}
 	return postprocess.NewProcessor(opts...)
 }
@@ -94,6 +146,15 @@ func printTree(n *resolve.FetchTreeNode, sb *strings.Builder) {
 				sb.WriteByte(' ')
 			}
 			sb.WriteString(strconv.Itoa(x))
+		}
+		sb.WriteString(") (")
+		if m, ok := n.Item.Fetch.(*resolve.MultiEntityFetch); ok {
+			for i, x := range m.MergedFetchIDs {
+				if i > 0 {
+					sb.WriteByte(' ')
+				}
+				sb.WriteString(strconv.Itoa(x))
+			}
 		}
 		sb.WriteString("))")
 	case resolve.FetchTreeNodeKindSequence, resolve.FetchTreeNodeKindParallel:
@@ -139,7 +200,7 @@ func runOnce(mode string, dag []fetch) (out string) {
 	return sb.String()
 }
 
-var modes = []string{"w", "s", "m", "t"}
+var modes = []string{"w", "s", "m", "t", "M"}
 
 func observe(kind string, dag []fetch) string {
 	parts := []string{"c08", kind}
@@ -149,7 +210,11 @@ func observe(kind string, dag []fetch) string {
 		for i, d := range f.deps {
 			ds[i] = strconv.Itoa(d)
 		}
-		fs = append(fs, common.L("f", strconv.Itoa(f.id), common.L(ds...)))
+		src := "-"
+		if f.cand {
+			src = common.L(strconv.Itoa(f.ds), strconv.Itoa(f.env))
+		}
+		fs = append(fs, common.L("f", strconv.Itoa(f.id), common.L(ds...), src))
 	}
 	parts = append(parts, common.L(fs...))
 	for _, m := range modes {
@@ -320,6 +385,21 @@ func genDAG(r *common.Rand) []fetch {
 		r.Shuffle(len(f.deps), func(a, b int) { f.deps[a], f.deps[b] = f.deps[b], f.deps[a] })
 		dag[i] = f
 	}
+	// entity fetches: few datasources so that several land in one wave; members of a group then
+	// have different, overlapping dependency lists in the (already shuffled) order above
+	if entityShare := r.Pick(4); entityShare > 0 {
+		nds := 1 + r.Pick(3)
+		oddEnv := r.Chance(1, 6)
+		for i := range dag {
+			if r.Pick(4) < entityShare {
+				dag[i].cand = true
+				dag[i].ds = r.Pick(nds)
+				if oddEnv && r.Chance(1, 5) {
+					dag[i].env = 1
+				}
+			}
+		}
+	}
 	// list order: the planner emits fetches in discovery order, not sorted
 	switch r.Pick(4) {
 	case 0:
@@ -341,6 +421,9 @@ func genDup(r *common.Rand) []fetch {
 		if len(dag) > 12 {
 			dag = dag[:12]
 		}
+		for i := range dag {
+			dag[i].cand = false // the merge stage identifies members by node, the model by id
+		}
 		if len(dag) < 2 {
 			continue
 		}
@@ -361,19 +444,31 @@ func genDup(r *common.Rand) []fetch {
 }
 
 func parseCorpusLine(line string) (string, []fetch, error) {
-	// KIND<TAB>id:dep,dep id: id:dep ...
+	// KIND<TAB>id:dep,dep id: id:dep@ds.env ...   (@ds.env marks a mergeable entity fetch)
 	parts := strings.SplitN(line, "\t", 2)
 	if len(parts) != 2 {
 		return "", nil, fmt.Errorf("bad corpus line")
 	}
 	var dag []fetch
 	for _, tok := range strings.Fields(parts[1]) {
+		src := ""
+		if at := strings.IndexByte(tok, '@'); at >= 0 {
+			src, tok = tok[at+1:], tok[:at]
+		}
 		kv := strings.SplitN(tok, ":", 2)
 		id, err := strconv.Atoi(kv[0])
 		if err != nil || len(kv) != 2 {
 			return "", nil, fmt.Errorf("bad fetch %q", tok)
 		}
 		f := fetch{id: id}
+		if src != "" {
+			de := strings.SplitN(src, ".", 2)
+			f.cand = true
+			f.ds, _ = strconv.Atoi(de[0])
+			if len(de) == 2 {
+				f.env, _ = strconv.Atoi(de[1])
+			}
+		}
 		if kv[1] != "" {
 			for _, d := range strings.Split(kv[1], ",") {
 				x, err := strconv.Atoi(d)
